@@ -12,6 +12,7 @@ import Driver.OrdHandlers
 import Driver.TorusHandlers
 import Driver.MeasHandlers
 import Driver.TxnHandlers
+import Driver.BudHandlers
 open DM
 
 def optIntTok : Option Int → String
@@ -117,6 +118,8 @@ def dispatch (c : Case) : Res :=
   | "hull" => runHull c
   | "qry" => runQry c
   | "hil" => runHil c
+  | "bud" => runBud c
+  | "adv" => runAdv c
   | "txn" => runTxn c
   | "meas" => runMeas c
   | "wrap" => runWrap c
